@@ -766,7 +766,7 @@ class ODLEncoder(PVLEncoder):
                 if isinstance(
                     getattr(value, quant.value_prop),
                     self.numeric_types
-                ):
+                ) and not isinstance(getattr(value, quant.value_prop), bool):
                     return super().encode_value(value)
                 else:
                     raise ValueError(
